@@ -102,6 +102,11 @@ func runCreateBid(ctx *action.Context, tx action.RawTx) (bool, action.Response) 
 		return helpers.LogAndReturnFalse(ctx.Logger, action.ErrWrongTxType, createBid.Tags(), err)
 	}
 
+	// the offered amount must be a non-negative amount of a known currency
+	if !createBid.Amount.IsValid(ctx.Currencies) {
+		return helpers.LogAndReturnFalse(ctx.Logger, action.ErrInvalidAmount, createBid.Tags(), errors.New("invalid bid amount"))
+	}
+
 	//1. check if this is to create a bid conversation or just add an offer
 	bidConvId := createBid.BidConvId
 	if len(createBid.BidConvId) == 0 {
